@@ -43,15 +43,16 @@ def rule_operator_chain(ctx):
         toks = [s["value"] for s in a["symbols"] if s["kind"] == "str"]
         names = [s["name"] for s in a["symbols"] if s["kind"] == "nt" and s["name"]]
         act = (a["action"] or "").replace(" ", "")
+        lt = grammar.leaf_texts(a) or []
         if not toks and "ops" in names:
             seen["op"] = a
-            ok = names == ["variable", "ops", "rhe"] and "build_substitution(Meta::new(s,e),name,access,ops,rhe)" in act and "build_multi_substitution(Meta::new(s,e),variable,ops,rhe)" in act
-            ctx.check(R, "grammar/substitution[op]", ok, "bindings %s; action %s" % (names, act[:160]), (GR, a["line"]))
+            ok = names == ["variable", "ops", "rhe"] and lt == ["build_multi_substitution(Meta::new(s,e),variable,ops,rhe)", "build_substitution(Meta::new(s,e),variable.name,variable.access,ops,rhe)"]
+            ctx.check(R, "grammar/substitution[op]", ok, "bindings %s; results %s" % (names, lt), (GR, a["line"]))
         elif toks == ["-->"] or toks == ["==>"]:
             op = "AssignOp::AssignSignal" if toks == ["-->"] else "AssignOp::AssignConstraintSignal"
             seen[toks[0]] = a
-            ok = names == ["lhe", "variable"] and ("build_substitution(Meta::new(s,e),name,access,%s,lhe)" % op) in act and ("build_multi_substitution(Meta::new(s,e),variable,%s,lhe)" % op) in act
-            ctx.check(R, "grammar/substitution[%s]" % toks[0], ok, "the right-hand operand is the target, the left-hand one the value; bindings %s; action %s" % (names, act[:200]), (GR, a["line"]))
+            ok = names == ["lhe", "variable"] and lt == ["build_multi_substitution(Meta::new(s,e),variable,%s,lhe)" % op, "build_substitution(Meta::new(s,e),variable.name,variable.access,%s,lhe)" % op]
+            ctx.check(R, "grammar/substitution[%s]" % toks[0], ok, "the right-hand operand is the target, the left-hand one the value; bindings %s; results %s" % (names, lt), (GR, a["line"]))
     for k in ("op", "-->", "==>"):
         ctx.check(R, "grammar/substitution[%s]/present" % k, k in seen, "production missing")
     # tuple initialisations and declarations with initialiser
@@ -129,7 +130,8 @@ def rule_operator_chain(ctx):
                 names = [s["name"] for s in a["symbols"] if s["name"] in ("custom_gate", "parallel")]
                 toks = {s["name"]: s["text"] for s in a["symbols"] if s["name"] in ("custom_gate", "parallel")}
                 calls_ = re.findall(r"build_template\(([^;]*?)\)(?:,|$)", act)
-                ok = toks.get("custom_gate", "").startswith('"custom"') and toks.get("parallel", "").startswith('"parallel"') and act.count("parallel.is_some(),custom_gate.is_some())") == 2
+                lt = grammar.leaf_texts(a) or []
+                ok = toks.get("custom_gate", "").startswith('"custom"') and toks.get("parallel", "").startswith('"parallel"') and bool(lt) and all(x.startswith("build_template(") and x.endswith(",body,parallel.is_some(),custom_gate.is_some())") for x in lt)
                 ctx.check(R, "grammar/template/parallel-and-custom-flags", ok, "flags %s; action %s" % (toks, act[:260]), (GR, a["line"]))
     bt = find_fn(EB, "build_template") or find_fn(SB, "build_template")
     for file in ("program_structure/src/abstract_syntax_tree/ast.rs", SB, EB):
